@@ -108,6 +108,7 @@ package dhcp
 //@   ensures old(s.loader) != nil && old(len(lease.CircuitID)) > 0 && old(s.loader.circuitIDSubscribers) != nil ==> relCacheCID == 1
 //@   sets relSessions = relSessions + 1
 //@   sets relQuarantined = relQuarantined + ite(quarantine, 1, 0)
+//@   ensures s.poolMgr == old(s.poolMgr)
 
 // The handlers end a session ONLY through releaseLease: the direct-release ghosts (set by the
 // contracts of the individual release operations when the handler itself calls them) stay 0, so
@@ -155,8 +156,13 @@ package dhcp
 //@   ensures relPool == 0 && relNAT == 0 && relQoS == 0 && acctStops == 0
 
 // every lease collected as expired (and removed from the table in the same critical section) is torn down
+//@ loop Server.cleanupExpiredLeases#1
+//@   invariant forall i int :: 0 <= i && i < len(expired) ==> expired[i].lease != nil && expired[i].mac !in s.leases
+
 //@ loop Server.cleanupExpiredLeases#2
 //@   invariant relSessions == ridx && relQuarantined == 0
+//@   invariant forall i int :: 0 <= i && i < len(expired) ==> expired[i].lease != nil
+//@   invariant s.poolMgr != nil
 
 // ---- server.go: the ACK gate of DHCPREQUEST (C02) ----
 //
